@@ -81,6 +81,17 @@ def handle : Handler := fun op inp impl =>
       else ""
     { agree := agree, holds := why.isEmpty, nontrivial := nontrivial, model := model, why := why,
       cls := if wantOk then "success" else "failure" }
+  | "feedback" =>
+    -- every case of the batch passes; the reference server's stderr carries one feedback line for
+    -- the target case: the run must fail and name that case (C04: peer feedback turns an
+    -- otherwise matching result into a failure)
+    if !(isNull (field impl "panic")) || bool (field impl "hang") then
+      { agree := false, holds := false, why := "batch with reference-server feedback panicked or hung" } else
+    let target := "Suite/case" ++ toString (nat (field inp "target"))
+    let failed := strList (field impl "failed")
+    let holds := !(bool (field impl "ok")) && failed.contains target
+    { agree := holds && failed == [target], holds := holds, nontrivial := true, cls := "feedback",
+      why := if holds then "" else "reference-server feedback for " ++ target ++ " (message " ++ str (field inp "msg") ++ ") did not fail the run / was not named; FAILED names: " ++ toString failed }
   | "run" =>
     if !(isNull (field impl "panic")) then
       { agree := false, holds := false, why := "panic: " ++ str (field impl "panic") } else
